@@ -43,10 +43,6 @@ func VerifH_C03_scanStream() {
 			kind = []int{1, 3, 4}[vRange("laterKind", 0, 2)]
 		}
 		name, o := c03Object(kind, int64(len(want)+1))
-		if len(want) == 0 && vRange("upperCase", 0, 1) == 1 {
-			// element names are matched case-insensitively by the scanner
-			name = string(name[0]-32) + name[1:]
-		}
 		toks = append(toks, vXMLTok{Kind: 0, Name: name, Model: o})
 		want = append(want, o)
 	}
